@@ -396,6 +396,31 @@ def oracle_prepare(sqls, dialect, metadata, full, stmts=None):
     return out, cases
 
 
+def resolve_by_script(alone, per_pairs):
+    """per-statement pairs with every unresolved (bare-named, multi-candidate) source column replaced by the columns of the
+    candidates that an earlier statement wrote; None when some column is not in the class (see the caller)"""
+    anywhere = {c for ps in per_pairs for pr in ps for c in pr}
+    written, res = set(), []
+    for k, a in enumerate(alone):
+        un = {}
+        for name, cands in a["result"]["unresolved"]:
+            if name in un or any(not isinstance(t, str) or t.startswith("subquery") or "." not in t for t in cands):
+                return None
+            un[name] = list(cands)
+        ps = []
+        for x, y in per_pairs[k]:
+            if x in un:
+                early = [t for t in un[x] if f"{t}.{x}" in written]
+                if not early or set(early) != {t for t in un[x] if f"{t}.{x}" in anywhere}:
+                    return None
+                ps += [(f"{t}.{x}", y) for t in early]
+            else:
+                ps.append((x, y))
+        res.append(sorted(set(ps)))
+        written |= {y for _, y in per_pairs[k]}
+    return res
+
+
 def oracle_finish(out, full, runs):
     """phase 2: `runs` = results of the cases of phase 1, in order"""
     if not runs:
@@ -433,6 +458,15 @@ def oracle_finish(out, full, runs):
                 un[name].add((k, tuple(cands)))
     d11 = sorted(nm for nm, v in un.items() if len({c for _, c in v}) > 1 and len({k for k, _ in v}) > 1)
     out["d11_names"] = d11
+    if unresolved and not d11:
+        # class `ResolvedByScript`: every multi-candidate column of every statement is DEFINED by exactly the candidates an EARLIER
+        # statement of the script wrote a column of that name to ("an unqualified column that [a table created earlier] defines is
+        # attributed to it") — and by no other reading of "defines" (the column of a candidate appearing anywhere in the script), so
+        # that the expectation does not depend on how the code looks the column up.  Then the oracle resolves the column itself.
+        rp = resolve_by_script(alone, per_pairs)
+        if rp is not None:
+            per_pairs, unresolved = rp, False
+            out["resolved_by_oracle"] = True
     expected = compose_pairs(per_pairs)
     actual = pairs_of(full["result"]["paths"])
     out.update({"expected": expected, "actual": actual, "per_statement_pairs": per_pairs})
@@ -562,7 +596,7 @@ def evaluate(chk, drv, cases, dialects, st):
             chk.violation("session handling of a chained script: " + o["fails"][0], dict(rec, oracle=o))
             return False
         if o.get("applicable"):
-            st.c["oracle:resolved-class"] += 1
+            st.c["oracle:resolved-by-script-class" if o.get("resolved_by_oracle") else "oracle:resolved-class"] += 1
         if not o["ok"]:
             if o.get("d11_only") and "D11" in listed:
                 chk.known("D11")
